@@ -1070,7 +1070,8 @@ func (eval Evaluator) tensorScaleInvariant(ct0 *rlwe.Ciphertext, ct1 *rlwe.Eleme
 		ringQ.Add(opOut.Value[1], tmpCt.Value[1], opOut.Value[1])
 	}
 
-	opOut.Scale = MulScaleInvariant(eval.parameters, ct0.Scale, tmp1Q0.Scale, level)
+	// (not tmp1Q0.Scale: when ct1 is the receiver the operands are swapped above and tmp1Q0 is ct0)
+	opOut.Scale = MulScaleInvariant(eval.parameters, ct0.Scale, ct1.Scale, level)
 
 	return
 }
